@@ -135,7 +135,7 @@ def run(chk, scratch):
     if thorough:
         for i in range(40):
             rounds.append({"n": (2, 3, 4, 8, 12, 16)[i % 6], "same_gtf": i % 3 == 0, "fresh_home": i % 2 == 0,
-                           "delay": (0.0, 0.02, 0.05, 0.2)[i % 4], "shared_db": i % 5 == 4})
+                           "delay": (0.0, 0.02, 0.05, 0.2)[i % 4], "shared_db": i % 5 == 4, "create_delay": 1.5 if i % 8 == 6 else 0})
     else:
         rounds = [{"n": 8, "same_gtf": False, "fresh_home": True, "delay": 0.05},
                   {"n": 8, "same_gtf": True, "fresh_home": True, "delay": 0.02},
@@ -143,7 +143,8 @@ def run(chk, scratch):
                   {"n": 12, "same_gtf": False, "fresh_home": True, "delay": 0.0},
                   {"n": 4, "same_gtf": False, "fresh_home": False, "delay": 0.05},
                   {"n": 16, "same_gtf": False, "fresh_home": True, "delay": 0.02},
-                  {"n": 8, "same_gtf": False, "fresh_home": True, "delay": 0.02, "shared_db": True}]
+                  {"n": 8, "same_gtf": False, "fresh_home": True, "delay": 0.02, "shared_db": True},
+                  {"n": 4, "same_gtf": False, "fresh_home": True, "delay": 0.02, "create_delay": 1.5}]
     # inputs: a pool of 16 different small worlds + solo outputs
     pool = os.path.join(scratch, "pool")
     os.makedirs(pool)
@@ -181,8 +182,11 @@ def run(chk, scratch):
             extra = ["--genedb_output", os.path.join(rdir, "shared_db")] if rd.get("shared_db") else []
             r = runner.run_isoquant(pipeline.std_args(d, out, threads=1, extra=extra), home, mon=["cache"],
                                     cfg={"cache_seed": chk.seed * 100 + ri, "cache_max_delay": rd["delay"],
+                                         # rounds with "create_delay": run 0 starts 0.4 s before the others and is pre-empted for that long right
+                                         # after it has CREATED a file of the cache folder (the file exists and is still empty)
+                                         "cache_create_delay": rd.get("create_delay", 0) if j == 0 else 0,
                                          "mkdir_delay_paths": [os.path.join(rdir, "shared_db")]}, events=ev,
-                                    env_extra={"VERIF_RUN_ID": str(j), "VERIF_START_AT": str(start_at)}, cwd=rdir)
+                                    env_extra={"VERIF_RUN_ID": str(j), "VERIF_START_AT": str(start_at - (0.4 if j == 0 and rd.get("create_delay") else 0))}, cwd=rdir)
             return j, k, out, r
         results = runner.parallel(one, list(range(rd["n"])), workers=rd["n"])
         desc = "round %d: %d runs, %s annotation, %s HOME, max delay %.2fs" % (
